@@ -178,9 +178,12 @@ def run_tasks(tasks, nproc):
     return results
 
 
+REPLAY_DIR = os.environ.get("VERIF_REPLAY_DIR") or os.path.join(HOME, "replays")
+
+
 def replay_files(prop):
     files = sorted(glob.glob(os.path.join(HOME, "crverif", "regress", prop, "*.json")))
-    files += sorted(glob.glob(os.path.join(HOME, "replays", prop, "*.json")))
+    files += sorted(glob.glob(os.path.join(REPLAY_DIR, prop, "*.json")))
     return files
 
 
@@ -230,7 +233,7 @@ def replay_isolated(prop, path, timeout=300):
 
 
 def write_replay(prop, failure, seed, tier):
-    d = os.path.join(HOME, "replays", prop)
+    d = os.path.join(REPLAY_DIR, prop)
     os.makedirs(d, exist_ok=True)
     h = "%016x" % digest([failure["facet"], failure["recipe"]])
     path = os.path.join(d, "%s-%s.json" % (failure["facet"], h[:12]))
@@ -334,7 +337,7 @@ def main(argv=None):
                 budget = max(1, budget // 2)
             timeout = f.timeout_quick if args.tier == "quick" else f.timeout_thorough
             for s in range(nshards):
-                sseed = (seed * 1000 + s) * 10 + rnd
+                sseed = ((seed * 1000 + s) * 10 + rnd) * 1000 + digest(f.name) % 1000
                 per = budget // nshards + (1 if s < budget % nshards else 0)
                 tasks.append(((f.name, s), (prop, f.name, args.tier, s, nshards, per, sseed,
                                             sorted(excluded[f.name]), args.scale), timeout))
